@@ -5,6 +5,7 @@ import (
 	"io"
 	"log/slog"
 	"os"
+	"sync"
 	"time"
 
 	"github.com/jhalter/mobius/hotline"
@@ -337,3 +338,23 @@ func vSubField(id [2]byte, data []byte) []byte {
 	return append(out, data...)
 }
 
+
+// ---- lock tracking (engine-only replacement of sync.Mutex / sync.RWMutex) ------------------------------------------
+// Lock/Unlock count the locks held; a harness may also install vLockHook to play another client's complete
+// operation right before a lock is granted.
+var vLocksHeld int
+var vLockHook func()
+
+func vStub_sync_Mutex_Lock(m *sync.Mutex) {
+	if vLockHook != nil {
+		h := vLockHook
+		vLockHook = nil
+		h()
+	}
+	vLocksHeld++
+}
+func vStub_sync_Mutex_Unlock(m *sync.Mutex)      { vLocksHeld-- }
+func vStub_sync_RWMutex_Lock(m *sync.RWMutex)    { vLocksHeld++ }
+func vStub_sync_RWMutex_Unlock(m *sync.RWMutex)  { vLocksHeld-- }
+func vStub_sync_RWMutex_RLock(m *sync.RWMutex)   { vLocksHeld++ }
+func vStub_sync_RWMutex_RUnlock(m *sync.RWMutex) { vLocksHeld-- }
